@@ -1,5 +1,5 @@
 (** Marshalling helpers shared by the dispatch tables of the extracted correspondence driver. *)
-From SE Require Import Base Codecs Fat Stream Transcode Cue Names.
+From SE Require Import Base Codecs Fat Stream Transcode Cue Names AkaiImage.
 From Coq Require Import Floats.PrimFloat Floats.SpecFloat Floats.FloatOps.
 
 (** floats travel as (kind sign mantissa exponent): kind 0 = finite (value = +-m*2^e,
@@ -100,3 +100,21 @@ Fixpoint untree (fuel : nat) (v : val) : tree :=
     | _ => Leaf
     end
   end.
+
+(** a (large, mostly zero) image travels as (len (off (bytes...)) (off (bytes...)) ...) with
+    increasing, non-overlapping runs *)
+Fixpoint build_img (runs : list val) (pos len : Z) : list Z :=
+  match runs with
+  | [] => zrepeat 0 (len - pos)
+  | r :: t =>
+      let off := unVI (nth 0 (unVL r) (VI 0)) in
+      let bs := unVLZ (nth 1 (unVL r) (VI 0)) in
+      zrepeat 0 (off - pos) ++ bs ++ build_img t (off + zlen bs) len
+  end.
+Definition unimg (v : val) : list Z :=
+  match unVL v with
+  | VI len :: runs => build_img runs 0 len
+  | _ => []
+  end.
+Definition vwav (w : wavfile) : val :=
+  VL [VL (map vlistZ (w_path w)); VI (w_rate w); VI (w_channels w); vlistZ (w_pcm w)].
